@@ -66,8 +66,10 @@ pub fn efficiencies_from_counts(
     if signal_singles_rate == Hertz::new(0.) || idler_singles_rate == Hertz::new(0.) {
       0.
     } else {
-      let denom: f64 = *(signal_singles_rate * idler_singles_rate * S * S);
-      *(coincidences_rate * S / denom.sqrt())
+      // the geometric mean as a product of roots: the product of two rates
+      // over/underflows for rates beyond 1e±154 Hz although the mean does not
+      let mean: f64 = (*(signal_singles_rate * S)).sqrt() * (*(idler_singles_rate * S)).sqrt();
+      *(coincidences_rate * S) / mean
     };
   Efficiencies {
     symmetric: symmetric_efficiency,
